@@ -66,14 +66,13 @@ Alts == {[sel |-> x, forms |-> fs, omit |-> om] :
 AltText(a) == PrintKeysFrom([k \in 1..Len(a.sel.tags) |-> KeyText(a.sel.tags[k], a.forms[k])],
                             a.sel.items, [k \in 1..Len(a.sel.tags) |-> a.omit], 1)
 
-VARIABLES c, done
-vars == <<c, done>>
+VARIABLE c
+vars == <<c>>
 
-Init == /\ done = FALSE
-        /\ CASE Kind = "tag"   -> c \in {[tag |-> t, form |-> f, ug |-> u[1], ue |-> u[2]] : t \in BTags, f \in Forms, u \in Cases4}
+Init == CASE Kind = "tag"   -> c \in {[tag |-> t, form |-> f, ug |-> u[1], ue |-> u[2]] : t \in BTags, f \in Forms, u \in Cases4}
              [] Kind = "str"   -> c \in {[s |-> s] : s \in Near \cup Bytes}
              [] Kind = "alt"   -> c \in Alts
-Next == ~done /\ done' = TRUE /\ UNCHANGED c
+Next == UNCHANGED c
 Spec == Init /\ [][Next]_vars
 
 Res(s) == LET t == Recognise(s) IN IF t = NoTag THEN [ok |-> FALSE, tag |-> <<0, 0>>] ELSE [ok |-> TRUE, tag |-> t]
@@ -86,7 +85,7 @@ SpecOk == CASE Kind = "tag" -> /\ Recognise(PrintTag2(c.tag, c.form, c.ug, c.ue)
                                /\ ((\A k \in 1..Len(c.sel.tags) : c.forms[k] = "paren") /\ ~c.omit) => AltText(c) = PrintSel(c.sel)
             [] OTHER -> TRUE
 
-Emit == done =>
+Emit ==
     CASE Kind = "tag" -> PrintT(<<"CASE", ToJson([kind |-> "tag", tag |-> c.tag, s |-> PrintTag2(c.tag, c.form, c.ug, c.ue),
                                                   res |-> Res(PrintTag2(c.tag, c.form, c.ug, c.ue)), show |-> Display(c.tag)])>>)
       [] Kind = "str" -> PrintT(<<"CASE", ToJson([kind |-> "str", s |-> c.s, res |-> Res(c.s)])>>)
